@@ -399,17 +399,182 @@ def r18_7(prog, rep, rid="R18.7"):
         rep.broken_("rule=%s expected the date and the time dispatch, found %d" % (rid, n))
 
 
+
+def _strp_walk(prog, text, cache={}):
+    """What idiff_strp() makes of one spelling: (milliseconds, bytes consumed), by a value-fixed walk of its CFG with the bytes of the
+    string as constants (helpers the rule set does not know are spliced in by the loader; nothing of echse runs)."""
+    from ..absw import AbsWalk, eval_in
+    if text in cache:
+        return cache[text]
+    f = prog.fn("idiff_strp", "dt-strpf.c")
+    cfg = f.cfg
+    sp, onp, lp = (p_["n"] for p_ in f.params[:3])
+    init = {onp: 0, lp: len(text), "%s[%d]" % (sp, len(text)): 0}
+    for k, ch in enumerate(text):
+        init["%s[%d]" % (sp, k)] = ord(ch)
+    resv = [l_["n"] for l_ in f.locals if "idiff" in (l_.get("t") or "")]
+    if not resv:
+        raise AnalysisBroken("idiff_strp: result variable not found")
+    tracked = {l_["n"] for l_ in f.locals} | {lp, onp} | {"%s.d" % r_ for r_ in resv}
+    outs = []
+
+    def effect(b, i, x, store):
+        if isinstance(x, dict) and x.get("k") == "ret" and x.get("e") is not None:
+            e = strip_casts(cfg.resolve(x["e"]))
+            v = store.get(lv(e) + ".d") if e.get("k") == "ref" else None
+            outs.append(v)
+        return None
+    w = AbsWalk(f, tracked, init=init, effect=effect, max_states=50000)
+    w.run()
+    vals = set(outs)
+    if len(vals) != 1 or None in vals:
+        raise AnalysisBroken("idiff_strp(%r): no single result (%s)" % (text, sorted(vals, key=str)[:3]))
+    cache[text] = outs[0]
+    return outs[0]
+
+
+def r18_8(prog, rep, rid="R18.8"):
+    """The duration reader looks at its input through comparisons with a dozen constants (digit test, sign and designator letters).  It
+    is walked over every spelling  [+|-] P [nW] [nD] [T [nH] [nM] [nS]]  with each count absent, 0 or 12 (726 spellings): each must
+    read as (7W + D) days + H:M:S in milliseconds with the sign applied — so equivalent spellings (explicit zero components, a leading
+    plus sign, weeks against days) read alike, every designator is read behind its T, and the multipliers are those of the units."""
+    import itertools
+    f = prog.fn("idiff_strp", "dt-strpf.c")
+    opts = (None, 0, 12)
+    n = 0
+    bad = []
+    for sign in ("", "+", "-"):
+        for W, D, H, M, S in itertools.product(opts, repeat=5):
+            if all(v is None for v in (W, D, H, M, S)):
+                continue
+            t = sign + "P"
+            t += "%dW" % W if W is not None else ""
+            t += "%dD" % D if D is not None else ""
+            if any(v is not None for v in (H, M, S)):
+                t += "T" + ("%dH" % H if H is not None else "") + ("%dM" % M if M is not None else "") + ("%dS" % S if S is not None else "")
+            want = ((7 * (W or 0) + (D or 0)) * 86400000 + ((H or 0) * 3600 + (M or 0) * 60 + (S or 0)) * 1000) * (-1 if sign == "-" else 1)
+            got = _strp_walk(prog, t)
+            n += 1
+            if got != want:
+                bad.append((t, got, want))
+    key = "idiff_strp/spellings-read-as-their-value"
+    if bad:
+        bad.sort(key=lambda b_: (len(b_[0]), b_[0]))
+        rep.fail(rid, key, f.loc(), "%d of %d spellings are not read as the duration they spell, e.g. %s" % (
+            len(bad), n, "; ".join("`%s` reads as %d ms instead of %d" % b_ for b_ in bad[:4])), {"examples": [list(b_) for b_ in bad[:20]]})
+    else:
+        rep.ok(rid, key, f.loc(), "%d spellings read as the duration they spell" % n)
+
+
+
+def _strf_walk(prog, d, cache={}):
+    """What idiff_strf() prints for d milliseconds, by a value-fixed walk of its CFG (the decimal formatter ui32tostr() is modelled:
+    it writes the digits of its number and returns how many)."""
+    from ..absw import AbsWalk, eval_in
+    if d in cache:
+        return cache[d]
+    f = prog.fn("idiff_strf", "dt-strpf.c")
+    cfg = f.cfg
+    bufp, bszp, dp = (p_["n"] for p_ in f.params[:3])
+
+    def pre(store, e):
+        e = strip_casts(cfg.resolve(e))
+        if e.get("k") == "un" and e.get("op") in ("post++", "post--"):
+            return store.get(lv(e["e"]))
+        if e.get("k") == "un" and e.get("op") in ("pre++", "pre--"):
+            v = store.get(lv(e["e"]))
+            return None if v is None else v + (1 if "++" in e["op"] else -1)
+        return eval_in(store, e, f, call_eval)
+
+    def call_eval(c, store):
+        if c.get("fn") == "echs_nul_idiff_p":
+            v = store.get(dp + ".d")
+            return None if v is None else int(v == 0)
+        if c.get("fn") == "ui32tostr":
+            n_ = eval_in(store, c["a"][2], f, call_eval)
+            return None if n_ is None else len(str(n_))
+        return None
+    outs = []
+
+    def effect(b, i, x, store):
+        upd = {}
+        if not isinstance(x, dict):
+            return upd
+        out = dict(store.get("$out", ()))
+        ch = False
+        if x.get("k") == "call" and x.get("fn") == "ui32tostr":
+            a0 = strip_casts(cfg.resolve(x["a"][0]))
+            off = None
+            if a0.get("k") == "bin" and a0["op"] == "+" and lv(strip_casts(a0["l"])) == bufp:
+                off = eval_in(store, a0["r"], f, call_eval)
+            elif a0.get("k") == "ref" and a0.get("n") == bufp:
+                off = 0
+            n_ = eval_in(store, x["a"][2], f, call_eval)
+            if off is None or n_ is None:
+                raise AnalysisBroken("idiff_strf: a call of ui32tostr could not be followed")
+            for k, c_ in enumerate(str(n_)):
+                out[off + k] = ord(c_)
+            ch = True
+        for l, kind, nn in writes(x):
+            tl = strip_casts(l)
+            if tl.get("k") == "idx" and lv(tl["b"]) == bufp and nn.get("k") == "bin" and nn["op"] == "=":
+                ix, v = pre(store, tl["i"]), pre(store, nn["r"])
+                if ix is None or v is None:
+                    raise AnalysisBroken("idiff_strf: a store into the buffer could not be followed (%s)" % show(x)[:50])
+                out[ix] = v
+                ch = True
+        if ch:
+            upd["$out"] = tuple(sorted(out.items()))
+        if x.get("k") == "ret" and x.get("e") is not None:
+            outs.append((eval_in(store, cfg.resolve(x["e"]), f, call_eval), dict(store.get("$out", ()))))
+        return upd
+    tracked = {l_["n"] for l_ in f.locals} | {bszp, dp + ".d"}
+    w = AbsWalk(f, tracked, init={bszp: 64, dp + ".d": d}, effect=effect, call_eval=call_eval, max_states=20000)
+    w.run()
+    res = set()
+    for r, o in outs:
+        if r is None or any(o.get(k) is None for k in range(r)):
+            res.add(None)
+        else:
+            res.add("".join(chr(o[k]) for k in range(r)))
+    if len(res) != 1 or None in res:
+        raise AnalysisBroken("idiff_strf(%d): no single result (%s)" % (d, sorted(res, key=str)[:3]))
+    cache[d] = next(iter(res))
+    return cache[d]
+
+
+def r18_9(prog, rep, rid="R18.9"):
+    """What the duration printer writes reads back as the same number of milliseconds: walked for every combination of 0 or 12 days,
+    hours, minutes and seconds, both signs (the values whose remainder below a second is 0 — the remainder is R18.5's business)."""
+    import itertools
+    f = prog.fn("idiff_strf", "dt-strpf.c")
+    bad = []
+    n = 0
+    for sign in (1, -1):
+        for D, H, M, S in itertools.product((0, 12), repeat=4):
+            d = sign * (D * 86400000 + (H * 3600 + M * 60 + S) * 1000)
+            if d == 0 and sign < 0:
+                continue
+            text = _strf_walk(prog, d)
+            back = _strp_walk(prog, text) if len(text) >= 3 else None
+            n += 1
+            if back != d:
+                bad.append((d, text, back))
+    key = "idiff_strf/printed-durations-read-back"
+    if bad:
+        rep.fail(rid, key, f.loc(), "%d of %d durations do not survive print and parse, e.g. %s" % (
+            len(bad), n, "; ".join("%d ms is printed as `%s`, which reads as %s ms" % b_ for b_ in bad[:3])), {"examples": [list(b_) for b_ in bad[:20]]})
+    else:
+        rep.ok(rid, key, f.loc(), "%d whole-second durations survive print and parse (units, letters, T and sign agree on both sides)" % n)
+
+
 def run(prog, rep, tier, snap):
     rep.rule("R18.1", "64-bit accumulation in the duration parser", 2)
     rep.call(r18_1, prog, rep)
-    rep.rule("R18.2", "every sign alternative reaches the value parser", 4)
-    rep.call(r18_2, prog, rep)
-    rep.rule("R18.3", "unit letters and multipliers agree between idiff_strf and idiff_strp", 8)
-    rep.call(r18_3, prog, rep)
-    rep.rule("R18.6", "time designators are read only behind their T", 2)
-    rep.call(r18_6, prog, rep)
-    rep.rule("R18.7", "a count's value does not decide whether its designator is read", 2)
-    rep.call(r18_7, prog, rep)
+    rep.rule("R18.8", "every grammatical spelling of a duration reads as the duration it spells", 1)
+    rep.call(r18_8, prog, rep)
+    rep.rule("R18.9", "what the duration printer writes reads back as the same number of milliseconds", 1)
+    rep.call(r18_9, prog, rep)
     rep.rule("R18.5", "the duration printer does not drop what is left below its smallest unit", 1)
     rep.call(r18_5, prog, rep)
     rep.rule("R18.4", "the instant parser's default window covers the printers' longest output", 2)
